@@ -9,6 +9,7 @@
 
 mod arena;
 mod c08;
+mod c17;
 mod c18m;
 mod c18p;
 mod hidden;
@@ -50,6 +51,10 @@ fn main() {
             let s = c08::run(seed, args.usize("runs", 20000), workers);
             report::write_out(out, &s.to_json("C08", seed));
         }
+        "c17" => {
+            let s = c17::run(seed, args.usize("histories", 2000), workers, !args.flag("no-faults"));
+            report::write_out(out, &s.to_json("C17", seed));
+        }
         "c18p" => {
             let s = c18p::run(seed, args.usize("samples", 32), workers);
             report::write_out(out, &s.to_json("C18", seed));
@@ -83,6 +88,7 @@ fn main() {
                     c08::set_canon_nan(cfg!(miri));
                     c08::replay(&j)
                 }
+                "C17" => c17::replay(&j),
                 "C18" if j["part"].as_str() == Some("P") => c18p::replay(&j),
                 "C18" if j["part"].as_str() == Some("M") => {
                     arena::install_crash_monitor();
